@@ -34,7 +34,9 @@ CONSTANTS NBase,        \* number of base samples (1..NBase)
           Batches,      \* batch sizes offered
           MaxObjs,      \* largest number of objects
           MaxMerges,    \* largest number of Merge steps
+          Dirs,         \* cache kinds offered to set_cached_file: subset of {1, 2}
           AllowNested,  \* offer Wrap (a second HeavyCall stage on an object)
+          MaxDepth,     \* histories of at most this many steps (state constraint)
           MergeNames    \* TRUE: merge appends "_" + other.name (the code); FALSE: keeps the first name
 
 VARIABLES objs,         \* sequence of objects
@@ -91,7 +93,7 @@ SetBelow(os, o, d, nm) ==
     LET below == IF os[o].inner = 0 THEN os ELSE SetBelow(os, os[o].inner, d, nm)
     IN [below EXCEPT ![o].dir = d, ![o].name = nm]
 SetCachedFile(o, d) ==
-    /\ o \in 1..Len(objs) /\ d \in {1, 2}
+    /\ o \in 1..Len(objs) /\ d \in Dirs
     /\ objs[o].dir = 0                                  \* configured once, with the object's own name (ConfigLoader: "s{i}{idx}")
     /\ objs' = SetBelow(objs, o, d, <<o>>)
     /\ obs' = NoObs /\ UNCHANGED <<files, nmerge>>
@@ -123,23 +125,37 @@ Wrap(o) ==
     /\ obs' = NoObs /\ UNCHANGED <<files, nmerge>>
 
 Next == \/ \E o \in 1..MaxObjs : \E b \in Batches : Use(o, b)
-        \/ \E o \in 1..MaxObjs : \E d \in {1, 2} : SetCachedFile(o, d)
+        \/ \E o \in 1..MaxObjs : \E d \in Dirs : SetCachedFile(o, d)
         \/ \E o1, o2 \in 1..MaxObjs : Merge(o1, o2)
         \/ \E o \in 1..MaxObjs : Replace(o)
         \/ \E o \in 1..MaxObjs : Wrap(o)
 Spec == Init /\ [][Next]_vars
 
 --------------------------------------------------------------------------
+DepthBound == TLCGet("level") <= MaxDepth
+
 TypeOK == /\ Len(objs) \in NBase..MaxObjs
           /\ \A f, g \in files : f[1] = g[1] => f = g              \* one content per file
           /\ \A o \in 1..Len(objs) : objs[o].dir \in 0..2 /\ objs[o].inner \in 0..(o - 1)
-\* a file holds what its key says: the content of whoever addresses it
+\* stage relation: one object is a stage below the other
+RECURSIVE Below(_, _, _)
+Below(os, a, b) == os[b].inner # 0 /\ (os[b].inner = a \/ Below(os, a, os[b].inner))
+Related(os, a, b) == Below(os, a, b) \/ Below(os, b, a)
+InChain(os, o) == os[o].inner # 0 \/ \E p \in 1..Len(os) : os[p].inner = o
+
+\* every use delivers the object's own content.  Theorem for objects that are
+\* not part of a nested chain of HeavyCall stages (UseFaithfulFlat); for
+\* nested stages it is refuted: set_cached_file gives both stages one name
 UseFaithful == obs.kind = "use" => obs.ok
-KeysDistinct ==
-    \A o1, o2 \in 1..Len(objs) : \A b \in Batches :
-        (objs[o1].dir = 2 /\ objs[o2].dir = 2 /\ KeyOf(objs[o1], b) = KeyOf(objs[o2], b))
-            => Content(objs, o1, b) = Content(objs, o2, b)
-FilesTruthful ==
+UseFaithfulFlat == (obs.kind = "use" /\ ~InChain(objs, obs.o)) => obs.ok
+\* distinct contents never share a file key
+KeyClash(o1, o2, b) == /\ objs[o1].dir = 2 /\ objs[o2].dir = 2
+                       /\ KeyOf(objs[o1], b) = KeyOf(objs[o2], b)
+                       /\ Content(objs, o1, b) # Content(objs, o2, b)
+KeysDistinct == \A o1, o2 \in 1..Len(objs) : \A b \in Batches : ~KeyClash(o1, o2, b)
+KeysDistinctFlat == \A o1, o2 \in 1..Len(objs) : \A b \in Batches : KeyClash(o1, o2, b) => Related(objs, o1, o2)
+\* a file holds the content of whoever addresses it
+FilesTruthfulFlat ==
     \A f \in files : \A o \in 1..Len(objs) : \A b \in Batches :
-        (objs[o].dir = 2 /\ KeyOf(objs[o], b) = f[1]) => f[2] = Content(objs, o, b)
+        (objs[o].dir = 2 /\ KeyOf(objs[o], b) = f[1] /\ ~InChain(objs, o)) => f[2] = Content(objs, o, b)
 ==========================================================================
